@@ -223,3 +223,38 @@ def write_manifest(obligations):
     }
     json.dump(man, open(os.path.join(VERIF, 'MANIFEST.json'), 'w'), indent=1)
     print('MANIFEST.json written:', len(checks), 'checks,', len(na), 'not applicable')
+
+
+def write_design_table(obligations):
+    """Regenerate the 'what is built' table inside DESIGN.md (between the GENERATED STATUS markers) from the obligation table."""
+    import collections
+    obs = obligations.all_obligations()
+    rows = []
+    for pid in sorted(obligations.PROPS):
+        m = obligations.PROPS[pid]
+        if m.get('not_applicable'):
+            rows.append(f'| {pid} | not applicable | - | - | - | {m["not_applicable"][:120]} |')
+            continue
+        mine = [o for o in obs if pid in o.props]
+        def fam(o):
+            return re.sub(r'(\.(t|j|fill|as|step|envstep|seq|sub)?\d+[a-z]*|\.M\d+F\d+K\d+N\d+|\.(OM_[A-Z]+\.[dz])|\.(MORE|FINISH|OK|ERR_[A-Z]+)|\.\d+u|\.L\d+W\d+)$', '', o.name)
+        kinds = collections.Counter(o.kind for o in mine if o.tier == 'quick')
+        kt = collections.Counter(o.kind for o in mine)
+        fams = collections.OrderedDict()
+        for o in mine:
+            fams.setdefault(fam(o), []).append(o)
+        famtxt = ', '.join(f'{k}' + (f' x{len(v)}' if len(v) > 1 else '') + f' [{v[0].kind}]' for k, v in fams.items())
+        claimed = 'claimed' if pid in obligations.CLAIMED else 'NOT claimed'
+        rows.append(f'| {pid} | {claimed} ({m["level"]}) | ' + ' '.join(f'{k}:{kinds[k]}' for k in sorted(kinds)) + ' | ' +
+                    ' '.join(f'{k}:{kt[k]}' for k in sorted(kt)) + f' | {famtxt} | ' + '; '.join(m.get('undecided', []))[:200] + ' |')
+    table = ('| property | manifest | quick obligations by kind | all (incl. thorough) | obligation families [kind] | undecided residue (see section 4) |\n'
+             '|---|---|---|---|---|---|\n' + '\n'.join(rows) + '\n')
+    path = os.path.join(VERIF, 'DESIGN.md')
+    txt = open(path).read()
+    a, b = '<!-- BEGIN GENERATED STATUS -->', '<!-- END GENERATED STATUS -->'
+    if a in txt and b in txt:
+        txt = txt[:txt.index(a) + len(a)] + '\n' + table + txt[txt.index(b):]
+        open(path, 'w').write(txt)
+        print('DESIGN.md status table regenerated:', len(rows), 'rows')
+    else:
+        print(table)
